@@ -83,6 +83,10 @@ def cases(tier):
     for via in ("same-handle", "other-handle"):
         for dt in (0, 1):
             out.append({"k": "force-then-set", "via": via, "dt": dt})
+    for kind in ("array", "tag", "multi_tag", "data_frame", "block", "section", "property"):
+        for how in ("set", "force"):
+            for dt in (0, 2):
+                out.append({"k": "replace", "kind": kind, "how": how, "dt": dt})
     return out
 
 
@@ -512,6 +516,108 @@ def run_fault_then_set(case, r):
         s.close()
 
 
+def run_replace(case, r):
+    """the entity at a path is changed (or its stamp forced), deleted, and the NAME is taken again by a copy of a
+    template that carries old stamps; then the new entity is changed (forced) within the same clock second (dt 0) or
+    a later one: the change stamps the clock (the forced second is read back), also after reopening"""
+    env.install_seams()
+    env.reset_execution()
+    path = env.fresh_path("c19r_")
+    f = nix.File.open(path, nix.FileMode.Overwrite)
+    f2 = None
+    path2 = None
+    OLDC, OLDU = 900000000, 1000000000
+    try:
+        # the templates live in a second file: a kept-id copy and its source in ONE file share their fate on deletion
+        # (known finding of C20), which is not what this scenario is about
+        path2 = env.fresh_path("c19t_")
+        f2 = nix.File.open(path2, nix.FileMode.Overwrite)
+        b = f.create_block("blk", "t")
+        tb = f2.create_block("templates", "t")
+        sroot = f.create_section("sec", "t")
+        troot = f2.create_section("templates", "t")
+        pos = b.create_data_array("pos", "t", data=np.array([0.0, 1.0]))
+        tpos = tb.create_data_array("pos", "t", data=np.array([0.0, 1.0]))
+        col = dict([("a", np.int64)])
+        kinds = {
+            "array": (lambda n: b.create_data_array(n, "t", data=np.array([1.0, 2.0])), lambda: tb.create_data_array("f_array", "t", data=np.array([5.0])),
+                      lambda n, F: b.create_data_array(n, copy_from=F), lambda: b.data_arrays, "label"),
+            "tag": (lambda n: b.create_tag(n, "t", [0.0]), lambda: tb.create_tag("f_tag", "t", [1.0]),
+                    lambda n, F: b.create_tag(n, copy_from=F), lambda: b.tags, "definition"),
+            "multi_tag": (lambda n: b.create_multi_tag(n, "t", pos), lambda: tb.create_multi_tag("f_mtag", "t", tpos),
+                          lambda n, F: b.create_multi_tag(n, copy_from=F), lambda: b.multi_tags, "type"),
+            "data_frame": (lambda n: b.create_data_frame(n, "t", col_dict=col), lambda: tb.create_data_frame("f_df", "t", col_dict=col, data=[(1,), (2,)]),
+                           lambda n, F: b.create_data_frame(n, copy_from=F), lambda: b.data_frames, "definition"),
+            "block": (lambda n: f.create_block(n, "t"), lambda: f2.create_block("f_block", "t"),
+                      lambda n, F: f.create_block(n, copy_from=F), lambda: f.blocks, "definition"),
+            "section": (lambda n: sroot.create_section(n, "t"), lambda: troot.create_section("f_section", "t"),
+                        lambda n, F: sroot.copy_section(F, name=n) if "name" in sroot.copy_section.__code__.co_varnames else None,
+                        lambda: sroot.sections, "definition"),
+            "property": (lambda n: sroot.create_property(n, [1]), lambda: troot.create_property("f_prop", [2]),
+                         lambda n, F: sroot.create_property(n, copy_from=F), lambda: sroot.props, "definition"),
+        }
+        mk, mkF, cp, cont, attr = kinds[case["kind"]]
+        F = mkF()
+        F.force_created_at(OLDC)
+        F.force_updated_at(OLDU)
+        name = "work"
+        for rnd in range(3):
+            E = mk(name)
+            env.CLOCK.advance(7)
+            T = env.CLOCK()
+            if case["how"] == "set":
+                setattr(E, attr, "first%d" % rnd)
+            else:
+                E.force_updated_at(T + 50)
+            del cont()[name]
+            try:
+                N = cp(name, F)
+            except Exception as e:  # noqa
+                r.bump("replace-copy-refused:" + type(e).__name__)
+                return
+            if N is None:
+                r.bump("replace-copy-not-available")
+                return
+            r.transitions += 4
+            r.evals += 1
+            r.nontrivial += 1
+            env.CLOCK.advance(case["dt"])
+            now = env.CLOCK()
+            if case["how"] == "set":
+                setattr(N, attr, "second%d" % rnd)
+                want = now
+            else:
+                N.force_updated_at(T + 50)
+                want = T + 50
+            got = cont()[name].updated_at
+            r.outcomes.add("replace:%s:%s" % (case["how"], "stamped"))
+            if got != want:
+                r.viol("C19|replace-by-copy|%s|%s|dt%d|%s" % (case["kind"], case["how"], case["dt"],
+                                                             "change-not-stamped" if case["how"] == "set" else "forced-second-not-read-back"),
+                       "%s 'work' changed, deleted, re-created as a copy of a template (updated_at %d), then %s at clock %d: updated_at reads %r, expected %r" % (
+                           case["kind"], OLDU, "changed" if case["how"] == "set" else "forced to %d" % want, now, got, want), {})
+                return
+            if F.updated_at != OLDU or F.created_at != OLDC:
+                r.viol("C19|replace-by-copy|%s|template-stamps-changed" % case["kind"], "stamps of the template changed: %r %r" % (F.created_at, F.updated_at), {})
+                return
+            if rnd == 1:
+                f.close()
+                f = nix.File.open(path, nix.FileMode.ReadWrite)
+                b, sroot = f.blocks["blk"], f.sections["sec"]
+                pos = b.data_arrays["pos"]
+                if cont()[name].updated_at != want:
+                    r.viol("C19|replace-by-copy|%s|%s|reopened" % (case["kind"], case["how"]), "after reopening updated_at reads %r, expected %r" % (cont()[name].updated_at, want), {})
+                    return
+            del cont()[name]
+        r.traces += 1
+    finally:
+        env.safe_close(f)
+        env.rm(path)
+        env.safe_close(f2)
+        if path2:
+            env.rm(path2)
+
+
 def run_case(case):
     r = R()
     if case["k"] == "toggles":
@@ -523,5 +629,5 @@ def run_case(case):
     if case["k"] == "fault-then-set":
         run_fault_then_set(case, r)
         return r
-    {"force-then-set": run_force_then_set, "hist": run_hist, "roundtrip": run_roundtrip, "seconds": run_seconds, "entity-roundtrip": run_entity}[case["k"]](case, r)
+    {"force-then-set": run_force_then_set, "replace": run_replace, "hist": run_hist, "roundtrip": run_roundtrip, "seconds": run_seconds, "entity-roundtrip": run_entity}[case["k"]](case, r)
     return r
